@@ -484,7 +484,7 @@ structure Job.Ok (o : Options) (j : Job) : Prop where
 
 /-- what the target holds afterwards -/
 def Job.result (o : Options) (j : Job) : Node :=
-  .file (renderLines o.newlineOutput (splice (splitLines j.bytes) 0 j.sec.hs)) j.m
+  .file (Render.renderText o.newlineOutput (splice (splitLines j.bytes) 0 j.sec.hs)) j.m
 
 theorem Sec.op_change (s : Sec) (h : changeStart s.hs = true) : s.op = .change := by
   unfold Sec.op
@@ -511,7 +511,7 @@ theorem guessSection_of_job (ho : GuessOpts o pname) (s : DState) (hs : LoopStat
     (htarget : s.fs.lookup j.name = some (.file j.bytes j.m)) :
     ∃ info par1 par2 r,
       GuessSection o (forced o) s j.name j.bytes j.m (j.sec.header o.strip) (j.sec.patch o.strip) info par1 par2 r ∧
-      render o.newlineOutput r.out = renderLines o.newlineOutput (splice (splitLines j.bytes) 0 j.sec.hs) ∧
+      render o.newlineOutput r.out = Render.renderText o.newlineOutput (splice (splitLines j.bytes) 0 j.sec.hs) ∧
       (tail ≠ [] → par2.s = ⟨tail, false, false⟩) ∧ (tail = [] → par2.s.eof = true) := by
   obtain ⟨info, par1, par2, hhdr, hbody, h1, h2⟩ :=
     parse_section o.strip (forced o) (forced_cases o) j.sec hj.sec tail htail s.par hpar
@@ -521,7 +521,7 @@ theorem guessSection_of_job (ho : GuessOpts o pname) (s : DState) (hs : LoopStat
     applyPatch_valid (splitLines j.bytes) j.sec.hs (j.sec.patch o.strip) (applyOptsOf o)
       (Option.map (fun l => List.map (fun a => !List.isEmpty a && List.head? a != some 110) l) s.tty)
       hj.valid (by rw [hrev]; rfl) ho.noDefine ho.fuzz
-  refine ⟨info, par1, par2, r, ?_, by rw [render, hrout], h1, h2⟩
+  refine ⟨info, par1, par2, r, ?_, C01.render_of_lines _ ho.noDefine hap hrout, h1, h2⟩
   exact {
     noOperand := ho.noOperand,
     oldPath := hj.named,
